@@ -108,17 +108,19 @@ pub struct StoreOp {
     /// the map after the strip / install stage and the set handed to `repair_tc`
     mid: Value,
     touched: Value,
+    staged: bool,
     done: bool,
 }
 
 impl StoreOp {
     pub fn new(op: &'static str, mode: impl std::fmt::Debug, schema: bool, arg: Value, pre: Value) -> Self {
-        Self { op, mode: format!("{mode:?}"), schema, arg, pre, mid: Value::Null, touched: Value::Null, done: false }
+        Self { op, mode: format!("{mode:?}"), schema, arg, pre, mid: json!([]), touched: json!([]), staged: false, done: false }
     }
     /// the linearization point between the two stages of an incremental update: stale edges are
     /// stripped and new records installed, `touched` is about to be repaired
     pub fn before_repair(&mut self, map: &HashMap<EntityUID, Arc<Entity>>, touched: &std::collections::HashSet<EntityUID>) {
         if enabled() {
+            self.staged = true;
             self.mid = project_entities(map);
             self.touched = json!(touched.iter().map(ToString::to_string).collect::<BTreeSet<_>>());
         }
@@ -127,7 +129,7 @@ impl StoreOp {
         self.done = true;
         emit(json!({"ev": "EsOp", "src": "hook", "op": self.op, "mode": self.mode, "schema": self.schema, "arg": self.arg,
                     "res": ["ok"], "pre": self.pre, "post": post, "isAnc": [], "in": [], "scopeIn": [],
-                    "mid": self.mid, "touched": self.touched}));
+                    "staged": self.staged, "mid": self.mid, "touched": self.touched}));
     }
 }
 
@@ -136,7 +138,7 @@ impl Drop for StoreOp {
         if !self.done {
             emit(json!({"ev": "EsOp", "src": "hook", "op": self.op, "mode": self.mode, "schema": self.schema, "arg": self.arg,
                         "res": ["err", "any"], "pre": self.pre, "post": self.pre, "isAnc": [], "in": [], "scopeIn": [],
-                        "mid": self.mid, "touched": self.touched}));
+                        "staged": self.staged, "mid": self.mid, "touched": self.touched}));
         }
     }
 }
